@@ -1,24 +1,24 @@
 (* Proofs about whole literals: the boolean validity of block bodies (Str/Literal.v) is the derivability in
    the grammar (BlockChars, Str/BlockString.v); a classified literal has the shape quotes ++ body ++ quotes;
-   String::from(&StringValue) on it (string_of_token) slices without panic and yields the specified value. *)
+   String::from(&StringValue) on it (su_string_of_token) slices without panic and yields the specified value. *)
 From ApolloVerif Require Import Base.Chars Str.Unescape Str.Literal Str.BlockString Str.QuotedProofs Str.BlockProofs.
 From Coq Require Import ZifyBool ZifyN Arith.
 
 (* ------------------------------------------------------------------ prefixes *)
-Lemma prefix_q_iff s : prefix_q s = true <-> has_prefix [34] s.
+Lemma prefix_q_iff s : su_prefix_q s = true <-> has_prefix [34] s.
 Proof.
   split.
   - destruct s as [|a t]; cbn; [discriminate|]. intros H. exists t. unfold c_quote in H. cbn [app]. f_equal. lia.
   - intros [t ->]. reflexivity.
 Qed.
-Lemma prefix_qq_iff s : prefix_qq s = true <-> has_prefix [34; 34] s.
+Lemma prefix_qq_iff s : su_prefix_qq s = true <-> has_prefix [34; 34] s.
 Proof.
   split.
   - destruct s as [|a [|b t]]; cbn; try discriminate; [rewrite andb_false_r; discriminate|].
     intros H. exists t. unfold c_quote in H. cbn [app]. apply andb_true_iff in H as [H1 H2]. repeat f_equal; lia.
   - intros [t ->]. reflexivity.
 Qed.
-Lemma prefix_qqq_iff s : prefix_qqq s = true <-> has_prefix [34; 34; 34] s.
+Lemma prefix_qqq_iff s : su_prefix_qqq s = true <-> has_prefix [34; 34; 34] s.
 Proof.
   split.
   - intros H. apply prefix_qqq_inv in H as [t ->]. exists t. reflexivity.
@@ -33,15 +33,15 @@ Proof.
 Qed.
 
 (* ------------------------------------------------------------------ block body validity = derivability *)
-Lemma bscan_BlockChars ctx : forall s, bscan ctx 0 s = true -> exists raw, BlockChars ctx s raw.
+Lemma bscan_BlockChars ctx : forall s, sl_bscan ctx 0 s = true -> exists raw, BlockChars ctx s raw.
 Proof.
   induction s as [s IH] using list_len_ind. intros H.
   destruct s as [|c r]; [exists []; constructor|].
-  cbn [bscan] in H. unfold c_bslash, c_quote in H.
+  cbn [sl_bscan] in H. unfold c_bslash, c_quote in H.
   destruct (N.eqb_spec c 92) as [->|Hb].
-  - destruct (prefix_qqq r) eqn:Er.
+  - destruct (su_prefix_qqq r) eqn:Er.
     + apply prefix_qqq_inv in Er as [t ->].
-      change (bscan ctx 3 (c_quote :: c_quote :: c_quote :: t)) with (bscan ctx 0 t) in H.
+      change (sl_bscan ctx 3 (c_quote :: c_quote :: c_quote :: t)) with (sl_bscan ctx 0 t) in H.
       destruct (IH t) as [raw Hraw]; [cbn; lia|exact H|].
       exists (34 :: 34 :: 34 :: raw). apply BC_escaped. exact Hraw.
     + apply andb_true_iff in H as [Hn H]. apply negb_true_iff in Hn.
@@ -59,30 +59,30 @@ Proof.
       exists (c :: raw). apply BC_source; [| |exact Hraw]; rewrite has_prefix_cons; intros [? _]; congruence.
 Qed.
 
-Lemma BlockChars_bscan ctx s raw : BlockChars ctx s raw -> bscan ctx 0 s = true.
+Lemma BlockChars_bscan ctx s raw : BlockChars ctx s raw -> sl_bscan ctx 0 s = true.
 Proof.
   induction 1 as [|r v H IH|c r v Hq Hb H IH].
   - reflexivity.
   - exact IH.
-  - cbn [bscan]. unfold c_bslash, c_quote.
+  - cbn [sl_bscan]. unfold c_bslash, c_quote.
     destruct (N.eqb_spec c 92) as [->|Hc].
-    + destruct (prefix_qqq r) eqn:Er.
+    + destruct (su_prefix_qqq r) eqn:Er.
       * exfalso. apply Hb. rewrite has_prefix_cons. split; [reflexivity|].
         apply prefix_qqq_iff in Er. apply has_prefix_app. exact Er.
       * rewrite IH, andb_true_r. apply negb_true_iff.
-        destruct (prefix_qqq (r ++ ctx)) eqn:E; [|reflexivity].
+        destruct (su_prefix_qqq (r ++ ctx)) eqn:E; [|reflexivity].
         exfalso. apply Hb. rewrite has_prefix_cons. split; [reflexivity|]. now apply prefix_qqq_iff.
     + destruct (N.eqb_spec c 34) as [->|Hc'].
       * rewrite IH, andb_true_r. apply negb_true_iff.
-        destruct (prefix_qq (r ++ ctx)) eqn:E; [|reflexivity].
+        destruct (su_prefix_qq (r ++ ctx)) eqn:E; [|reflexivity].
         exfalso. apply Hq. rewrite has_prefix_cons. split; [reflexivity|]. now apply prefix_qq_iff.
       * exact IH.
 Qed.
 
 Theorem block_body_valid_iff body :
-  block_body_valid body = true <-> exists raw, BlockRawValue body raw.
+  sl_block_body_valid body = true <-> exists raw, BlockRawValue body raw.
 Proof.
-  unfold block_body_valid, BlockRawValue. split.
+  unfold sl_block_body_valid, BlockRawValue. split.
   - apply bscan_BlockChars.
   - intros [raw H]. eapply BlockChars_bscan; eauto.
 Qed.
@@ -100,32 +100,32 @@ Proof.
 Qed.
 
 Lemma classify_block text b :
-  classify_literal text = LBlock b -> text = qqq ++ b ++ qqq /\ block_body_valid b = true.
+  sl_classify_literal text = SlBlock b -> text = sl_qqq ++ b ++ sl_qqq /\ sl_block_body_valid b = true.
 Proof.
-  unfold classify_literal. destruct (prefix_qqq text) eqn:P.
+  unfold sl_classify_literal. destruct (su_prefix_qqq text) eqn:P.
   - destruct (Nat.leb 6 (length text)) eqn:L; cbn [andb]; [|discriminate].
-    destruct (ends_with_q 3 text) eqn:Q; cbn [andb]; [|discriminate].
-    destruct (block_body_valid (strip_quotes 3 text)) eqn:V; [|discriminate].
+    destruct (sl_ends_with_q 3 text) eqn:Q; cbn [andb]; [|discriminate].
+    destruct (sl_block_body_valid (sl_strip_quotes 3 text)) eqn:V; [|discriminate].
     intros [= <-]. split; [|exact V].
     apply prefix_qqq_inv in P as [t ->]. apply Nat.leb_le in L. cbn [length] in L.
-    unfold strip_quotes, drop_last. cbn [skipn].
-    unfold ends_with_q in Q. cbn [length] in Q.
+    unfold sl_strip_quotes, sl_drop_last. cbn [skipn].
+    unfold sl_ends_with_q in Q. cbn [length] in Q.
     replace (S (S (S (length t))) - 3)%nat with (3 + (length t - 3))%nat in Q by lia.
     cbn [Nat.add skipn] in Q.
     assert (Hl : length (skipn (length t - 3) t) = 3%nat) by (rewrite skipn_length; lia).
     rewrite <- (firstn_skipn (length t - 3) t) at 1.
     rewrite (forallb_q3 _ Hl Q). reflexivity.
-  - destruct (prefix_q text); [|discriminate].
-    destruct (Nat.leb 2 (length text) && ends_with_q 1 text && quoted_body_valid (strip_quotes 1 text)); discriminate.
+  - destruct (su_prefix_q text); [|discriminate].
+    destruct (Nat.leb 2 (length text) && sl_ends_with_q 1 text && sl_quoted_body_valid (sl_strip_quotes 1 text)); discriminate.
 Qed.
 
 Lemma quoted_shape text :
-  prefix_q text = true -> Nat.leb 2 (length text) = true -> ends_with_q 1 text = true ->
-  text = 34 :: strip_quotes 1 text ++ [34].
+  su_prefix_q text = true -> Nat.leb 2 (length text) = true -> sl_ends_with_q 1 text = true ->
+  text = 34 :: sl_strip_quotes 1 text ++ [34].
 Proof.
   intros P L Q. apply prefix_q_iff in P as [t ->]. apply Nat.leb_le in L. cbn [length app] in *.
-  unfold strip_quotes, drop_last. cbn [skipn].
-  unfold ends_with_q in Q. cbn [length] in Q.
+  unfold sl_strip_quotes, sl_drop_last. cbn [skipn].
+  unfold sl_ends_with_q in Q. cbn [length] in Q.
   replace (S (length t) - 1)%nat with (1 + (length t - 1))%nat in Q by lia.
   cbn [Nat.add skipn] in Q.
   assert (Hl : length (skipn (length t - 1) t) = 1%nat) by (rewrite skipn_length; lia).
@@ -134,23 +134,23 @@ Proof.
 Qed.
 
 Lemma classify_quoted text b :
-  classify_literal text = LQuoted b ->
-  text = 34 :: b ++ [34] /\ quoted_body_valid b = true /\ prefix_qqq text = false.
+  sl_classify_literal text = SlQuoted b ->
+  text = 34 :: b ++ [34] /\ sl_quoted_body_valid b = true /\ su_prefix_qqq text = false.
 Proof.
-  unfold classify_literal. destruct (prefix_qqq text) eqn:P.
-  - destruct (Nat.leb 6 (length text) && ends_with_q 3 text && block_body_valid (strip_quotes 3 text)); discriminate.
-  - destruct (prefix_q text) eqn:P1; [|discriminate].
+  unfold sl_classify_literal. destruct (su_prefix_qqq text) eqn:P.
+  - destruct (Nat.leb 6 (length text) && sl_ends_with_q 3 text && sl_block_body_valid (sl_strip_quotes 3 text)); discriminate.
+  - destruct (su_prefix_q text) eqn:P1; [|discriminate].
     destruct (Nat.leb 2 (length text)) eqn:L; cbn [andb]; [|discriminate].
-    destruct (ends_with_q 1 text) eqn:Q; cbn [andb]; [|discriminate].
-    destruct (quoted_body_valid (strip_quotes 1 text)) eqn:V; [|discriminate].
+    destruct (sl_ends_with_q 1 text) eqn:Q; cbn [andb]; [|discriminate].
+    destruct (sl_quoted_body_valid (sl_strip_quotes 1 text)) eqn:V; [|discriminate].
     intros [= <-]. split; [|split; [exact V|reflexivity]].
     apply quoted_shape; assumption.
 Qed.
 
 (* ------------------------------------------------------------------ String::from(&StringValue) *)
-Lemma byte_slice_from_prefix p q : byte_slice_from (blen p) (p ++ q) = SOk q.
+Lemma byte_slice_from_prefix p q : su_slice_from (blen p) (p ++ q) = SuOk q.
 Proof.
-  induction p as [|c p IH]; cbn [blen app byte_slice_from].
+  induction p as [|c p IH]; cbn [blen app su_slice_from].
   - destruct q; reflexivity.
   - pose proof (u8len_pos c). replace (u8len c + blen p =? 0) with false by lia.
     replace (u8len c <=? u8len c + blen p) with true by lia.
@@ -158,43 +158,43 @@ Proof.
 Qed.
 
 Lemma slice_inner_quotes (o : str) body :
-  slice_inner (blen o) (blen o) (o ++ body ++ o) = SOk body.
+  su_slice_inner (blen o) (blen o) (o ++ body ++ o) = SuOk body.
 Proof.
-  unfold slice_inner. rewrite !blen_app.
+  unfold su_slice_inner. rewrite !blen_app.
   replace (blen o + (blen body + blen o) <? blen o) with false by lia.
   replace (blen o + (blen body + blen o) - blen o <? blen o) with false by lia.
   replace (blen o + (blen body + blen o) - blen o) with (blen (o ++ body)) by (rewrite blen_app; lia).
-  rewrite app_assoc, byte_slice_to_prefix. cbn [sbind]. apply byte_slice_from_prefix.
+  rewrite app_assoc, byte_slice_to_prefix. cbn [su_bind]. apply byte_slice_from_prefix.
 Qed.
 
 Lemma string_of_block_token body :
-  string_of_token (qqq ++ body ++ qqq) = unescape_block_string body.
+  su_string_of_token (sl_qqq ++ body ++ sl_qqq) = su_unescape_block_string body.
 Proof.
-  unfold string_of_token. change (is_block_string (qqq ++ body ++ qqq)) with true. cbn iota.
-  change 3 with (blen qqq). rewrite slice_inner_quotes. reflexivity.
+  unfold su_string_of_token. change (su_is_block_string (sl_qqq ++ body ++ sl_qqq)) with true. cbn iota.
+  change 3 with (blen sl_qqq). rewrite slice_inner_quotes. reflexivity.
 Qed.
 
 Lemma string_of_quoted_token body :
-  prefix_qqq (34 :: body ++ [34]) = false ->
-  string_of_token (34 :: body ++ [34]) = unescape_string body.
+  su_prefix_qqq (34 :: body ++ [34]) = false ->
+  su_string_of_token (34 :: body ++ [34]) = su_unescape_string body.
 Proof.
-  intros P. unfold string_of_token, is_block_string. rewrite P.
+  intros P. unfold su_string_of_token, su_is_block_string. rewrite P.
   change (34 :: body ++ [34]) with ([34] ++ body ++ [34]). change 1 with (blen [34]).
   rewrite slice_inner_quotes. reflexivity.
 Qed.
 
 (* ------------------------------------------------------------------ the value of a classified literal *)
 Theorem literal_quoted_value text body :
-  classify_literal text = LQuoted body ->
-  exists v, string_of_token text = SOk v /\ StringChars body v.
+  sl_classify_literal text = SlQuoted body ->
+  exists v, su_string_of_token text = SuOk v /\ StringChars body v.
 Proof.
   intros H. apply classify_quoted in H as [-> [V P]].
   rewrite (string_of_quoted_token _ P). apply quoted_decodes. exact V.
 Qed.
 
 Theorem literal_block_value text body :
-  classify_literal text = LBlock body ->
-  exists raw, BlockRawValue body raw /\ string_of_token text = SOk (BlockStringValue raw).
+  sl_classify_literal text = SlBlock body ->
+  exists raw, BlockRawValue body raw /\ su_string_of_token text = SuOk (bs_BlockStringValue raw).
 Proof.
   intros H. apply classify_block in H as [-> V].
   apply block_body_valid_iff in V as [raw Hraw]. exists raw. split; [exact Hraw|].
@@ -203,9 +203,9 @@ Qed.
 
 (* everything the lexer accepts converts without panic *)
 Theorem literal_no_panic text :
-  lexer_accepts_literal text = true -> exists v, string_of_token text = SOk v.
+  sl_lexer_accepts_literal text = true -> exists v, su_string_of_token text = SuOk v.
 Proof.
-  unfold lexer_accepts_literal. destruct (classify_literal text) as [b|b|] eqn:C; intros H.
+  unfold sl_lexer_accepts_literal. destruct (sl_classify_literal text) as [b|b|] eqn:C; intros H.
   - destruct (literal_quoted_value _ _ C) as [v [E _]]. eauto.
   - destruct (literal_block_value _ _ C) as [raw [_ E]]. eauto.
   - apply andb_true_iff in H as [H V]. apply andb_true_iff in H as [H Q].
